@@ -24,7 +24,9 @@ CONSTANTS
                   \*   jitter: "none" (Jitter -1) | "default" (unset -> 0.5) | "quarter" (0.25)
                   \*   body: "nil" | "nobody" | "getbody" | "nogetbody" | "failgetbody"
     Bodies,       \* response bodies a successful attempt may carry (token sequences)
-    Ends,         \* how a response body may end: subset of {"clean", "error", "errctx", "cancel"}
+    Ends,         \* how a response body may end: subset of {"clean", "error", "errctx", "errwrapeof", "cancel", "cancel_eof"}
+                  \*   "errwrapeof": a read error that wraps io.EOF (a transport wrapper's): a read error, not a clean end
+                  \*   "cancel_eof": the body ends cleanly at the very instant the context is cancelled
                   \*   "errctx": a read error that is a context error (a transport's own deadline) while the
                   \*   request's context is alive - an ordinary, retryable read error
     Outcomes,     \* what an attempt may meet: subset of {"transport", "transport_ctx", "reject", "stream", "cancel_do"}
@@ -60,7 +62,7 @@ Init ==
     /\ cfg \in Cfgs /\ pc = "reset"
     /\ lastEventID = <<>> /\ isRetry = FALSE
     /\ interval = cfg.initial /\ numRetries = 0
-    /\ attempts = 0 /\ cur = [body |-> <<>>, end |-> "clean"] /\ curErr = "" /\ result = R("")
+    /\ attempts = 0 /\ cur = [body |-> <<>>, end |-> "clean", ctxdone |-> FALSE] /\ curErr = "" /\ result = R("")
     /\ everConnected = FALSE
     /\ reqs = <<>> /\ events = <<>> /\ waits = <<>> /\ hist = <<>>
 
@@ -100,7 +102,7 @@ Do(o, body, end) ==
           /\ CASE o \in {"transport", "transport_ctx"} -> /\ curErr' = o /\ pc' = "next" /\ UNCHANGED <<cur, result>>
                [] o = "cancel_do" -> /\ Done(R("ctx")) /\ UNCHANGED <<cur, curErr>>
                [] o = "reject"    -> /\ Done(R("validator")) /\ UNCHANGED <<cur, curErr>>
-               [] o = "stream"    -> /\ cur' = [body |-> body, end |-> end] /\ pc' = "read" /\ UNCHANGED <<curErr, result>>
+               [] o = "stream"    -> /\ cur' = [body |-> body, end |-> end, ctxdone |-> FALSE] /\ pc' = "read" /\ UNCHANGED <<curErr, result>>
     /\ UNCHANGED <<cfg, lastEventID, isRetry, interval, numRetries, everConnected, reqs, events, waits>>
 
 Digits(t) == CASE t = "d1" -> <<1>> [] t = "d07" -> <<0, 7>> [] t = "d0" -> <<0>> [] t = "d2" -> <<2>> [] t = "d3" -> <<3>>
@@ -118,7 +120,7 @@ RetryUnits(v) == LET ds == StripZeros(DigitSeq(v)) IN IF Len(ds) > 2 THEN HUGE E
 \* a successful connection: the backoff is reset, the stream is read to its end
 Read ==
     /\ pc = "read"
-    /\ LET st == Interpret(cur.body, cur.end, "conn", lastEventID)
+    /\ LET st == Interpret(cur.body, IF cur.end = "cancel_eof" THEN "clean" ELSE cur.end, "conn", lastEventID)
            r  == IF st.retries = <<>> THEN 0 ELSE RetryUnits(st.retries[Len(st.retries)])
        IN /\ events' = events \o st.out
           /\ lastEventID' = IF st.out = <<>> THEN lastEventID ELSE st.out[Len(st.out)].id
@@ -127,10 +129,11 @@ Read ==
           /\ IF st.status = "cancelled" THEN Done(R("ctx")) /\ UNCHANGED curErr
              ELSE /\ curErr' = (CASE st.status = "eof" -> "eof"
                                   [] st.status = "unexpected_eof" -> "unexpected_eof"
-                                  [] st.status = "read_error" -> IF cur.end = "errctx" THEN "errctx" ELSE "boom")
+                                  [] st.status = "read_error" -> IF cur.end = "errctx" THEN "errctx" ELSE IF cur.end = "errwrapeof" THEN "wrapeof" ELSE "boom")
                   /\ pc' = "next" /\ UNCHANGED result
     /\ everConnected' = TRUE
-    /\ UNCHANGED <<cfg, isRetry, attempts, cur, reqs, waits, hist>>
+    /\ cur' = [cur EXCEPT !.ctxdone = (cur.end = "cancel_eof")]
+    /\ UNCHANGED <<cfg, isRetry, attempts, reqs, waits, hist>>
 
 Grow(i) == IF cfg.maxInterval > 0 /\ i * cfg.mulNum >= cfg.maxInterval * cfg.mulDen THEN cfg.maxInterval
            ELSE (i * cfg.mulNum) \div cfg.mulDen
@@ -148,12 +151,12 @@ BackoffNext ==
 
 \* the timer fires ...
 Wait ==
-    /\ pc = "wait" /\ waits[Len(waits)].base < HUGE
+    /\ pc = "wait" /\ waits[Len(waits)].base < HUGE /\ ~cur.ctxdone
     /\ pc' = "reset"
     /\ UNCHANGED <<cfg, lastEventID, isRetry, interval, numRetries, attempts, cur, curErr, result, everConnected, reqs, events, waits, hist>>
 \* ... or the context is cancelled first (always the case for a wait of 10^12 ms)
 CancelDuringWait ==
-    /\ pc = "wait" /\ (CancelInWait \/ waits[Len(waits)].base >= HUGE)
+    /\ pc = "wait" /\ (CancelInWait \/ waits[Len(waits)].base >= HUGE \/ cur.ctxdone)
     /\ Done(R("ctx")) /\ hist' = Append(hist, [o |-> "cancel_wait", body |-> <<>>, end |-> "clean"])
     /\ UNCHANGED <<cfg, lastEventID, isRetry, interval, numRetries, attempts, cur, curErr, everConnected, reqs, events, waits>>
 
@@ -168,6 +171,8 @@ Spec == Init /\ [][Next]_vars
 (* Properties of the loop (TLC, every reachable state)                      *)
 
 Cancelled == \E i \in 1..Len(hist) : hist[i].o \in {"cancel_do", "cancel_wait"} \/ (hist[i].o = "stream" /\ hist[i].end = "cancel")
+\* (a context cancelled at the instant the stream ends cleanly leads to the context's error through the wait,
+\* or - when no retry is left - to that attempt's error: the property does not say which wins)
 
 \* C11: Connect never returns nil, and only for a reason
 Reason ==
@@ -177,7 +182,7 @@ Reason ==
       /\ (result.kind = "validator" => hist[Len(hist)].o = "reject")
       /\ (result.kind \in {"nogetbody", "getbodyerr"} => attempts >= 1 /\ cfg.body \in {"nogetbody", "failgetbody"})
       /\ (result.kind = "exhausted" =>
-            /\ result.err \in {"transport", "transport_ctx", "eof", "unexpected_eof", "boom", "errctx"}
+            /\ result.err \in {"transport", "transport_ctx", "eof", "unexpected_eof", "boom", "errctx", "wrapeof"}
             /\ (cfg.maxRetries < 0 \/ numRetries = cfg.maxRetries))
 \* C11: a permanent failure is never followed by another attempt; a retryable one always by BackoffNext
 NoRetryAfterPermanent == \A i \in 1..(Len(hist) - 1) : hist[i].o \notin {"reject", "cancel_do", "cancel_wait"}
